@@ -22,7 +22,7 @@ STATS = {'max': np.max, 'mean': np.mean, 'median': np.median, 'min': np.min, 'st
 
 
 def plan(tier, seed):
-    n = 160 if tier == 'quick' else 1600
+    n = 160 if tier == 'quick' else 12000
     return [('ds', i) for i in range(n)]
 
 
